@@ -346,7 +346,7 @@ void runC40() {
     }
     std::string key = std::string("opres/") + (type ? "a64" : "a8");
     vrt::caseBegin(idx, key, spec);
-    vrt::watchdogArm();
+    vrt::watchdogArm(30);
     long nt = 0;
     uint64_t opMask = 0;
     std::map<std::string, long> fails;
